@@ -1088,6 +1088,19 @@ static void gen_relay(uint64_t seed, const std::string &prop, Plan &plan) {
     // the settle-point inspection presumes a direct connection (kernel idleness of one connection): not here
     std::vector<Op> ops;
     for (auto &op : plan.ops) if (op.kind != "settle" && op.kind != "setblk") ops.push_back(op);
+    // in 30 % of the plans one endpoint leaves abruptly in the middle of its conversation: the relay then learns
+    // of a dead leg from a failing send or receive while it holds data and (possibly) serves other connections
+    if (r.chance(0.3) && !ops.empty()) {
+        int conn = (int)r.below((uint64_t)plan.p["nconn"]);
+        int task = r.chance(0.5) ? T_CLIENT0 + conn : T_SCONN0 + conn;
+        std::vector<size_t> idx;
+        for (size_t i = 0; i < ops.size(); i++) if (ops[i].task == task && ops[i].kind != "connect") idx.push_back(i);
+        if (idx.size() > 1) {
+            size_t at = idx[r.below(idx.size() - 1)];
+            ops.insert(ops.begin() + (long)at, Op{task, "abort", {}, "", {}, -1});
+            plan.p["has_abort"] = 1;
+        }
+    }
     plan.ops = ops;
 }
 
